@@ -36,6 +36,7 @@ def c02(ctx):
     _g(ctx, sides.run)
     _g(ctx, wire.run, ordering=False, same=False, measure=True)
     _g(ctx, cand.run, slices=False, provenance=False, window=False, prune=False, consume=False, early=False, collect=True)
+    _g(ctx, order.run)      # a token dropped by the ordering inflates the recomputed score
     _g(ctx, once.run, which=['row_id'], caches=True)
     _g(ctx, split.run)
 
@@ -84,7 +85,8 @@ def c05(ctx):
 def c06(ctx):
     _g(ctx, mask.run, candset=True)
     _g(ctx, dt.run, pairs=True)
-    _g(ctx, verify.run, kinds=['count'], simtable=False)
+    _g(ctx, verify.run, kinds=['count'], simtable=True)
+    _g(ctx, wire.run, ordering=False, same=False, rows=False, arrays=False, measure=False)    # constructor stores
     _g(ctx, cand.run, slices=False, window=False, prune=False, consume=False)
     _g(ctx, split.run)
     _g(ctx, once.run, which=['InvertedIndex.build'], appends='filter', caches=True)
@@ -135,7 +137,7 @@ def c12(ctx):
 
 def c13(ctx):
     _g(ctx, form.run, ALL5, 'safe')
-    _g(ctx, verify.run, ni=True, simtable=False)
+    _g(ctx, verify.run, ni=True, simtable=False, window=True)
     # prerequisites of transposition / refinement: whatever loses or invents a pair on one side only
     _g(ctx, once.run, extrema=True, caches=True)
     _g(ctx, cand.run, unique=True, provenance=False)
